@@ -451,7 +451,8 @@ Qed.
 
 Lemma polka_update_polka r s hb ph b :
   o_maj23 (prevotes (cs_votes s) r) = Some (Some (hb, ph)) -> cs_round s = r ->
-  cs_pblock s = Some b -> b_hash b = hb -> (cs_lblock s = None \/ cs_lround s < r) ->
+  cs_pblock s = Some b -> b_hash b = hb ->
+  (hashes_to (cs_lblock s) hb = true \/ cs_lblock s = None \/ cs_lround s < r) ->
   let s' := polka_update r s in
   (cs_halted s' = cs_halted s /\ cs_height s' = cs_height s /\ cs_round s' = r /\ cs_step s' = cs_step s /\
    cs_proposal s' = cs_proposal s /\ cs_pblock s' = Some b /\ cs_votes s' = cs_votes s /\
@@ -475,7 +476,7 @@ Proof.
   { subst su. destruct (cs_lblock s) as [lb|] eqn:El.
     - destruct (hashes_to (Some lb) hb) eqn:Hl'.
       + cbn [andb negb]. rewrite andb_false_r. repeat split; auto.
-      + destruct Hl as [Hl|Hl]; [discriminate|].
+      + destruct Hl as [Hl|[Hl|Hl]]; [discriminate|discriminate|].
         replace (cs_lround s <? r) with true by (symmetry; apply Z.ltb_lt; exact Hl).
         replace (r <=? cs_round s) with true by (symmetry; apply Z.leb_le; lia).
         cbn [andb negb]. cs. repeat split; auto.
@@ -553,7 +554,7 @@ Proof.
   set (s1 := set_votes hv' s) in *.
   assert (Hm1 : o_maj23 (prevotes (cs_votes s1) (v_round v)) = Some (Some (hb, ph))) by (subst s1; cs; exact Hm).
   destruct (polka_update_polka (v_round v) s1 hb ph b Hm1 ltac:(subst s1; cs; auto) ltac:(subst s1; cs; auto) Hbh
-              ltac:(subst s1; cs; rewrite <- H2; exact Hl)) as (F & L & PP).
+              ltac:(subst s1; cs; rewrite <- H2; right; exact Hl)) as (F & L & PP).
   cbv zeta in F, L, PP. set (s2 := polka_update (v_round v) s1) in *.
   destruct F as (F1 & F2 & F3 & F4 & F5 & F6 & F7 & F8 & F9 & F10 & F11).
   subst s1. cs.
@@ -667,12 +668,13 @@ Proof.
   assert (N2 : enter_precommit E (cs_height s) (v_round v) s1 = (s1, [])).
   { unfold enter_precommit. rewrite A2, A3, A4, !Z.eqb_refl, Z.ltb_irrefl. reflexivity. }
   unfold seq at 1 in Eq. rewrite N1, A1 in Eq. unfold seq at 1 in Eq. rewrite N2, A1 in Eq. cbn [app] in Eq.
-  match type of Eq with (let '(s9, o9) := ?X in _) = _ => destruct X as [s9 o9] eqn:E9 end.
-  injection Eq as <- <-. apply in_errs_app.
-  replace o9 with (snd (s9, o9)) by reflexivity. rewrite <- E9. apply seq_out_first.
-  rewrite <- H2 at 1. rewrite H2.
-  apply (enter_commit_decides (cs_height s) (v_round v) s1 hb ph b pp); subst s1; cs; auto.
-  rewrite Hst. cbn. lia.
+  assert (D0 : In (ODecide (cs_height s) (v_round v) hb) (snd (enter_commit E (cs_height s) (v_round v) s1))).
+  { apply (enter_commit_decides (cs_height s) (v_round v) s1 hb ph b pp); subst s1; cs; auto.
+    rewrite Hst. cbn. lia. }
+  match type of Eq with context [seq (enter_commit E ?hh ?rr) ?g s1] =>
+    pose proof (seq_out_first (enter_commit E hh rr) g s1 _ D0) as D;
+    destruct (seq (enter_commit E hh rr) g s1) as [sa oa] end.
+  cbn [snd] in D. injection Eq as <- <-. apply in_errs_app. rewrite H2. exact D.
 Qed.
 
 End Progress.
